@@ -241,6 +241,10 @@ pub fn alphabet(a: Alpha, th: usize, pc: usize) -> Vec<Op> {
                     _ => Ord_::Rlx,
                 };
                 v.push(Op::Cas { loc, exp: 0, new: val, succ: ord, fail });
+                if fail != Ord_::Rlx {
+                    // a failure ordering weaker than what the success ordering implies: a failing attempt is a relaxed load
+                    v.push(Op::Cas { loc, exp: 0, new: val, succ: ord, fail: Ord_::Rlx });
+                }
             }
         }
     }
@@ -437,6 +441,14 @@ pub fn classics() -> Vec<(String, Prog)> {
         out.push((format!("rmw-atomicity[{}]", ro.s()), Prog { nlocs: 1, pre: vec![], threads: vec![vec![Op::Swap { loc: 0, val: 2, ord: ro }], vec![st(0, 1, Rlx)]] }));
         out.push((format!("2fadd[{}]", ro.s()), Prog { nlocs: 1, pre: vec![], threads: vec![vec![Op::FetchAdd { loc: 0, add: 64, ord: ro }], vec![Op::FetchAdd { loc: 0, add: 128, ord: ro }], vec![Op::FetchAdd { loc: 0, add: 256, ord: ro }]] }));
         out.push((format!("cas-race[{}]", ro.s()), Prog { nlocs: 1, pre: vec![], threads: vec![vec![Op::Cas { loc: 0, exp: 0, new: 1, succ: ro, fail: Rlx }], vec![Op::Cas { loc: 0, exp: 0, new: 2, succ: ro, fail: Rlx }], vec![Op::Cas { loc: 0, exp: 1, new: 3, succ: ro, fail: Rlx }]] }));
+    }
+    // message passing through a compare_exchange that FAILS: it synchronizes with its failure ordering, whatever the
+    // success ordering is
+    for &so in &STORE_ORDS {
+        for &(succ, fail) in &[(Acq, Rlx), (AcqRel, Rlx), (Sc, Rlx), (Sc, Acq), (Acq, Acq), (Rlx, Rlx), (Rel, Rlx)] {
+            out.push((format!("MP+failed-cas[{},{},{}]", so.s(), succ.s(), fail.s()), Prog { nlocs: 2, pre: vec![], threads: vec![vec![], vec![st(0, 1, Rlx), st(1, 2, so)], vec![Op::Cas { loc: 1, exp: 7, new: 8, succ, fail }, ld(0, Rlx)]] }));
+            out.push((format!("MP+failed-cas+f[{},{},{}]", so.s(), succ.s(), fail.s()), Prog { nlocs: 2, pre: vec![], threads: vec![vec![], vec![st(0, 1, Rlx), st(1, 2, so)], vec![Op::Cas { loc: 1, exp: 7, new: 8, succ, fail }, Op::Cas { loc: 1, exp: 2, new: 9, succ, fail }, ld(0, Rlx)]] }));
+        }
     }
     // the programs quoted in the property texts
     out.push(("C01-text".into(), Prog { nlocs: 1, pre: vec![], threads: vec![vec![st(0, 1, Sc), ld(0, Sc)], vec![ld(0, Sc), st(0, 2, Sc)]] }));
